@@ -448,6 +448,15 @@ func probeOp(w []string) string {
 		return probeEnumAll()
 	case "encrypt":
 		return probeEncrypt(w)
+	case "treesweep":
+		if len(w) < 4 {
+			return "bad-op"
+		}
+		n, err := strconv.Atoi(w[2])
+		if err != nil || n < 0 || n > 1<<20 {
+			return "bad-op"
+		}
+		return probeTreeSweep(n, w[3:])
 	case "filessweep":
 		if len(w) != 3 {
 			return "bad-op"
